@@ -10,6 +10,7 @@ import (
 	"net/http"
 	"strings"
 	"sync"
+	"sync/atomic"
 	"syscall"
 	"time"
 
@@ -104,10 +105,10 @@ func (s *proxySession) fail(format string, a ...interface{}) bool {
 func (s *proxySession) activity() string {
 	var a, b, c, d int64
 	if s.cli != nil {
-		a, b = s.cli.In, s.cli.Out
+		a, b = atomic.LoadInt64(&s.cli.In), atomic.LoadInt64(&s.cli.Out)
 	}
 	if s.srv != nil {
-		c, d = s.srv.In, s.srv.Out
+		c, d = atomic.LoadInt64(&s.srv.In), atomic.LoadInt64(&s.srv.Out)
 	}
 	return fmt.Sprint(a, b, c, d)
 }
